@@ -149,6 +149,14 @@ class Interp:
         if name in env.vars:
             return env.vars[name]
         st = mod.binders.get(name)
+        # `from X import *` at module level: the name may come from there (a star import AFTER the last explicit binding wins)
+        for star in reversed(mod.stars):
+            if st is not None and star.lineno < st.lineno:
+                break
+            v = self._star_lookup(mod, star, name)
+            if v is not UNDEF:
+                env.vars[name] = v
+                return v
         if st is None:
             return UNDEF
         if id(st) not in mod.done or name not in env.vars:
@@ -157,6 +165,33 @@ class Interp:
                 if name in M.bound_names(s):
                     self.exec_stmt(s, env)
         return env.vars.get(name, UNDEF)
+
+    def _star_lookup(self, mod, star, name):
+        if name.startswith('__') and name.endswith('__'):
+            return UNDEF
+        modname = star.module or ''
+        if star.level:
+            base = mod.name.split('.')
+            pk = base[:-star.level] if not mod.path.endswith('__init__.py') else base[:len(base) - star.level + 1]
+            modname = '.'.join(pk + ([star.module] if star.module else []))
+        src = M.load_module(modname)
+        if src is not None:
+            if src is mod:
+                return UNDEF
+            allv = self.module_lookup(src, '__all__') if '__all__' in src.binders else UNDEF
+            if allv is not UNDEF:
+                names = self.models.concrete_iter(self, allv)
+                if names is None or name not in names:
+                    return UNDEF
+            elif name.startswith('_'):
+                return UNDEF
+            return self.module_lookup(src, name)
+        if name.startswith('_'):
+            return UNDEF
+        try:
+            return self.mod_getattr(self.import_module(modname), name)
+        except (Unsupported, PyExc):
+            return UNDEF
 
     def lookup(self, name, env):
         e = env
